@@ -5,6 +5,8 @@ import itertools
 
 # register sizes at the byte, word and cache-line boundaries of every packed or vectorised representation
 BIG = [8, 9, 16, 17, 33, 64, 65]
+# list lengths around every block, chunk or vector width
+LONG = [255, 256, 257, 300, 1025]
 
 
 def unit(n2, k):
@@ -113,10 +115,41 @@ def commuting_obs(rng, model, n, L, signs=True):
     return out
 
 
-def rgate(rng, model, N, kinds=('gen', 'fwd', 'bwd', 'both', 'named')):
-    """random deterministic gate spec on ascending qubits"""
+def edge_pool(N):
+    """the qubits next to every byte / word boundary of a register (and its two ends): where packed supports, bit masks and shifted indices go wrong first"""
+    return sorted({q for q in (0, 1, 7, 8, 15, 16, 31, 32, 63, 64, 65, 127, 128, N - 2, N - 1) if 0 <= q < N})
+
+
+def rplist_on(rng, N, L, pool):
+    """operators supported on the pool qubits (all four phases)"""
+    out = []
+    for _ in range(L):
+        g = [0] * (2 * N)
+        for q in pool:
+            if rng.random() < 0.7:
+                g[2 * q], g[2 * q + 1] = rng.choice([(1, 0), (0, 1), (1, 1), (0, 0)])
+        out.append([g, rng.randint(0, 3)])
+    return out
+
+
+def rgate(rng, model, N, kinds=('gen', 'fwd', 'bwd', 'both', 'named'), pool=None):
+    """random deterministic gate spec on ascending qubits (drawn from [pool] when given)"""
     from .core import Some
     kind = rng.choice(kinds)
+    if pool is not None:
+        pool = list(pool)
+        k = rng.randint(1, min(len(pool), 2))
+        qs = sorted(rng.sample(pool, k))
+        if kind == 'named':
+            if k == 2:
+                return [qs if rng.random() < 0.5 else qs[::-1], [2, 5]]
+            return [qs, [2, rng.choice([0, 1, 2, 3, 4, 100 + rng.randrange(24)])]]
+        if kind == 'gen':
+            g = rpauli(rng, k, herm=True)
+            g[0] = [b for i in range(k) for b in rng.choice([(1, 0), (0, 1), (1, 1)])]
+            return [qs, [0, g]]
+        m = rmap(rng, model, k)
+        return [qs, [1, m, None]] if kind == 'fwd' else ([qs, [1, None, m]] if kind == 'bwd' else [qs, [1, m, model.call('inverse', m)]])
     if kind == 'named':
         nm = rng.choice([0, 1, 2, 3, 4, 5] + [100 + rng.randrange(24)])
         if nm == 5:
